@@ -1,6 +1,6 @@
-import LiquidVerif.Model.BoolParse
-/-! Helper lemmas about the Pratt parser model (`Model/BoolParse.lean`). -/
-namespace LiquidVerif.BoolParse
+import LiquidVerif.Model.CondParse
+/-! Helper lemmas about the Pratt parser model (`Model/CondParse.lean`). -/
+namespace LiquidVerif.CondParse
 open LiquidVerif.Gen
 
 /-- Every successful parse consumes at least one token, and the loop never produces tokens: the three
@@ -236,4 +236,4 @@ theorem parsePrim_append {fl p ts e r} (tail : List Tok) (ht : Stop tail) (h : p
     parsePrim fl p (ts ++ tail) = some (e, r ++ tail) :=
   (append_aux fl tail ht ts.length ts (Nat.le_refl _)).1 p e r h
 
-end LiquidVerif.BoolParse
+end LiquidVerif.CondParse
